@@ -307,5 +307,8 @@ func c14Main(args []string) error {
 		fmt.Printf("{\"runs\":%d}\n", runs)
 		return nil
 	}
-	return fmt.Errorf("c14: record")
+	if args[0] == "hooktrace" {
+		return c14HookTrace(args)
+	}
+	return fmt.Errorf("c14: record|hooktrace")
 }
